@@ -27,6 +27,21 @@ ASSUMPTIONS = [
 SHARDS = {"quick": 4, "thorough": 16}
 
 
+def _spellings(a, b, n):
+    """numpy-style spellings of the index block [a:b) on an axis of n tiles (first one canonical)."""
+    out = [slice(a, b)]
+    if b == a + 1:
+        out += [a, a - n]
+    out.append(slice(a - n, b))
+    if b < n:
+        out.append(slice(a, b - n))
+    if a == 0:
+        out.append(slice(None, b))
+    if b == n:
+        out.append(slice(a, None))
+    return out
+
+
 def _mk_tiles(case):
     from odc.geo.roi import Tiles, VariableSizedTiles
 
@@ -117,6 +132,18 @@ def check_tiling(tt, offs, T, case, deep=True):
                     sy, sx = sub[r - r0, c - c0]
                     want = ((oy[r][0] - y0, oy[r][1] - y0), (ox[c][0] - x0, ox[c][1] - x0))
                     require(((sy.start, sy.stop), (sx.start, sx.stop)) == want, "crop[%d:%d,%d:%d] tile (%d,%d) = %r, expected %r", r0, r1, c0, c1, r - r0, c - c0, (sy, sx), want)
+            # the same block of tiles spelled the numpy way (bare ints, negative and open-ended bounds)
+            sy_, sx_ = _spellings(r0, r1, R), _spellings(c0, c1, C)
+            alts = [(a_, sx_[0]) for a_ in sy_[1:]] + [(sy_[0], a_) for a_ in sx_[1:]] + [(sy_[i], sx_[i % len(sx_)]) for i in range(1, len(sy_))]
+            for ay, ax in alts:
+                alt = tt.crop((ay, ax))
+                require(
+                    tuple(map(tuple, alt.chunks)) == tuple(map(tuple, sub.chunks)) and tuple(alt.shape.yx) == tuple(sub.shape.yx),
+                    "crop(%r) gives chunks %r shape %r, but the same block spelled [%d:%d,%d:%d] gives chunks %r shape %r",
+                    (ay, ax), alt.chunks, tuple(alt.shape.yx), r0, r1, c0, c1, sub.chunks, tuple(sub.shape.yx),
+                )
+                uy, ux = tt[ay, ax]
+                require((uy.start, uy.stop, ux.start, ux.stop) == (y0, oy[r1 - 1][1], x0, ox[c1 - 1][1]), "tiles[%r] region %r", (ay, ax), (uy, ux))
             # region lookup with a tile-index slice gives the union rectangle
             uy, ux = tt[slice(r0, r1), slice(c0, c1)]
             require((uy.start, uy.stop, ux.start, ux.stop) == (y0, oy[r1 - 1][1], x0, ox[c1 - 1][1]), "tiles[%d:%d,%d:%d] region %r", r0, r1, c0, c1, (uy, ux))
